@@ -12,7 +12,7 @@
 EXTENDS Integers, Sequences, FiniteSets, TLC, SequencesExt, FiniteSetsExt
 
 \* ---------------------------------------------------------------- strings
-Alphabet == <<"-", ".", "0", "1", "2", "3", "5", "9", "a", "b", "c", "e">>   \* in ASCII order
+Alphabet == <<"+", "-", ".", "0", "1", "2", "3", "5", "9", "a", "b", "c", "e">>   \* in ASCII order
 Ord(c) == CHOOSE i \in 1..Len(Alphabet) : Alphabet[i] = c
 
 RECURSIVE StrLess(_, _)
@@ -41,7 +41,7 @@ IsMant(m) == /\ IsDigits(IntPart(m)) /\ IsDigits(FracPart(m)) /\ Len(FracPart(m)
 MantOf(u) == IF IndexOf(u, "e") = 0 THEN u ELSE SubSeq(u, 1, IndexOf(u, "e") - 1)
 ExpOf(u) == IF IndexOf(u, "e") = 0 THEN <<"0">> ELSE SubSeq(u, IndexOf(u, "e") + 1, Len(u))
 IsUnsigned(u) == IsMant(MantOf(u)) /\ Len(ExpOf(u)) = 1 /\ IsDigits(ExpOf(u))
-IsNum(s) == s # <<>> /\ (IF s[1] = "-" THEN IsUnsigned(Tail(s)) ELSE IsUnsigned(s))
+IsNum(s) == s # <<>> /\ (IF s[1] \in {"-", "+"} THEN IsUnsigned(Tail(s)) ELSE IsUnsigned(s))   \* strconv.ParseFloat takes a sign
 RECURSIVE NatVal(_)
 NatVal(s) == IF s = <<>> THEN 0 ELSE 10 * NatVal(SubSeq(s, 1, Len(s) - 1)) + Digit[s[Len(s)]]
 RECURSIVE Pow10(_)
@@ -49,7 +49,7 @@ Pow10(n) == IF n = 0 THEN 1 ELSE 10 * Pow10(n - 1)
 Unsigned100(u) == LET m == MantOf(u)  fp == FracPart(m) IN
    (100 * NatVal(IntPart(m)) + (IF Len(fp) = 0 THEN 0 ELSE IF Len(fp) = 1 THEN 10 * NatVal(fp) ELSE NatVal(fp)))
      * Pow10(NatVal(ExpOf(u)))
-NumVal(s) == IF s[1] = "-" THEN 0 - Unsigned100(Tail(s)) ELSE Unsigned100(s)    \* value * 100
+NumVal(s) == IF s[1] = "-" THEN 0 - Unsigned100(Tail(s)) ELSE IF s[1] = "+" THEN Unsigned100(Tail(s)) ELSE Unsigned100(s)    \* value * 100
 
 \* ---------------------------------------------------------------- patterns
 Star == <<"*">>                       \* the wildcard term; '*' is not in Alphabet
